@@ -134,7 +134,11 @@ func prepare() (string, error) {
 	}
 	bin := filepath.Join(work, "c13-inner")
 	_ = os.Remove(bin)
-	cmd := exec.Command("go", "build", "-tags", "verif c13worker", "-overlay", ovPath, "-o", bin, "./cmd/c13/worker")
+	bargs := []string{"build"}
+	if mf := os.Getenv("VERIF_MODFILE"); mf != "" {
+		bargs = append(bargs, "-modfile="+mf) // VERIF_REPO: build against the alternate copy of goa (see run.sh)
+	}
+	cmd := exec.Command("go", append(bargs, "-tags", "verif c13worker", "-overlay", ovPath, "-o", bin, "./cmd/c13/worker")...)
 	cmd.Dir = root
 	env := os.Environ()
 	flags := strings.Join(rest, " ")
